@@ -124,6 +124,9 @@ class GenericModelCodeGenerator:
             label = stripped[0].upper() + stripped[1:]
             if label in blacklist_words:
                 label += "_"
+        elif stripped and stripped[0].upper() == stripped[0].lower() and stripped[0].isalpha() and not label.endswith('_'):
+            # Letters of scripts without case ("名前"): the only way to differ from the field name is a suffix
+            label += "_"
         return label
 
     @cached_method
@@ -309,16 +312,22 @@ def sort_kwargs(kwargs: dict, ordering: Iterable[Iterable[str]]) -> dict:
 def prepare_label(s: str, convert_unicode: bool, to_snake_case: bool) -> str:
     if convert_unicode:
         s = unidecode(s)
+        s = re.sub(r"\W", "", s)
     else:
-        # Python normalizes identifiers (NFKC): label should be the name that field or class really gets ("µm" is "μm")
-        s = unicodedata.normalize("NFKC", s)
-    s = re.sub(r"\W", "", s)
-    if not convert_unicode:
-        # Word characters that can not be a part of identifier (i.e. "²" or "৴")
-        s = "".join(ch for ch in s if ("a" + ch).isidentifier())
+        # Keep every character that can be a part of identifier: not all of them are `\w` (combining vowel signs of
+        # Indic scripts are not) and not every `\w` is one of them ("²", "৴").
+        # Python normalizes identifiers (NFKC): label should be the name that field or class really gets ("µm" is "μm").
+        # Repeat until nothing changes, so label of a label is the same label
+        prev = None
+        while prev != s:
+            prev = s
+            s = "".join(ch for ch in s if ("a" + ch).isidentifier())
+            s = unicodedata.normalize("NFKC", s)
     if not ('a' <= s[0].lower() <= 'z'):
-        if '0' <= s[0] <= '9':
-            s = ones[int(s[0])] + "_" + s[1:]
+        # Digits of any script can not start identifier
+        digit = unicodedata.digit(s[0], None)
+        if digit is not None and not s[0].isidentifier():
+            s = ones[digit] + "_" + s[1:]
     if to_snake_case:
         s = inflection.underscore(s)
     if s in blacklist_words:
